@@ -183,3 +183,87 @@ Definition hs_hreq_ok_4 := hs_hreq_ok.
 Definition hs_hreq_ok_5 := hs_hreq_ok.
 Definition hs_hreq_ok_6 := hs_hreq_ok.
 Definition hs_hreq_ok_7 := hs_hreq_ok.
+
+(* ------------------------------------------------------------------ sequences of Server.readPacket steps *)
+(* inputs of one step: SI now kem_ct kem_k cookie ekey epub sids certs_by_name certlist certs_by_idx *)
+Definition SI (now : N) (ct k cookie : bytes) (ekey : N) (epub : bytes) (sids : list bytes)
+  (byname : list (bytes * (N * bytes * bytes))) (certlist : option (list hcert))
+  (byidx : list (N * (N * bytes * bytes))) : step_in :=
+  {| i_now := now; i_kem_ct := ct; i_kem_k := k; i_cookie := cookie; i_ekey := ekey; i_epub := epub;
+     i_sids := sids; i_cert := fun n => assoc beq_bytes n byname; i_certs := certlist;
+     i_cert_h := fun i => assoc N.eqb i byidx |}.
+
+(* what the real server did in one step: outcome code, datagrams sent (all to the source address),
+   table sizes afterwards, and optionally the keys of a session that must now be established *)
+Record sobs := SObs { sb_code : N; sb_outs : list bytes; sb_nhs : N; sb_nss : N; sb_npend : N;
+                      sb_keys : option (bytes * bytes * bytes) }.
+
+Inductive sstep :=
+| SRotate (ck : N)                                            (* cookie key rotation *)
+| SAccept                                                     (* the application took a handle from Accept *)
+| SDgram (ip port : N) (d : bytes) (out : bytes)               (* datagram d from ip:port; out = what was sent (concatenated) *)
+         (rest : bytes -> env * step_in * sobs)                (* applied to d ++ out *)
+| SJunk (ip port : N) (d : bytes) (code nhs nss npend : N).    (* a datagram rejected before any oracle is consulted: nothing sent *)
+
+Definition set_ck (s : srv) (ck : N) : srv :=
+  {| sv_hidden := sv_hidden s; sv_ck := ck; sv_pol := sv_pol s; sv_maxpending := sv_maxpending s;
+     sv_serving := sv_serving s; sv_hs := sv_hs s; sv_ss := sv_ss s; sv_pending := sv_pending s |}.
+
+Definition keys_ok (s : srv) (k : option (bytes * bytes * bytes)) : bool :=
+  match k with
+  | None => true
+  | Some (sid, c2s, s2c) =>
+    match find_ss sid (sv_ss s) with
+    | Some x => s_est x && beq_bytes (s_c2s x) c2s && beq_bytes (s_s2c x) s2c
+    | None => false
+    end
+  end.
+
+Definition sm_of_code (c : N) : sess -> addr -> bytes -> res sess :=
+  fun x _ _ => if c =? 0 then Ok x else if c =? 1 then Err else Panic.
+
+Definition ip4 (ip : N) : bytes := be_enc 4 ip.
+Definition env0 : env := Env 0 [] [] [] [] [] [] [].
+
+Definition step_ok (s : srv) (e : env) (inp : step_in) (ip port : N) (d : bytes) (ob : sobs) : bool * srv :=
+  let o := server_step (mkO e) (mkX e) (sm_of_code (sb_code ob)) s inp (ip4 ip, port) d in
+  let s' := so_srv o in
+  ((res_code (so_res o) =? sb_code ob) &&
+   beq_list beq_bytes (map snd (so_out o)) (sb_outs ob) &&
+   forallb (fun x => addr_eqb (fst x) (ip4 ip, port)) (so_out o) &&
+   (len_list (sv_hs s') =? sb_nhs ob) && (len_list (sv_ss s') =? sb_nss ob) &&
+   (len_list (sv_pending s') =? sb_npend ob) && keys_ok s' (sb_keys ob), s').
+
+Fixpoint run_steps (cl : option (list hcert)) (s : srv) (l : list sstep) : bool :=
+  match l with
+  | [] => true
+  | SRotate ck :: r => run_steps cl (set_ck s ck) r
+  | SAccept :: r => run_steps cl (set_pending s (tl (sv_pending s))) r
+  | SDgram ip port d out rest :: r =>
+    let '(e, inp, ob) := rest (d ++ out) in
+    let '(ok, s') := step_ok s e inp ip port d ob in
+    ok && (if sb_code ob =? 2 then true else run_steps cl s' r)
+  | SJunk ip port d code nhs nss npend :: r =>
+    let '(ok, s') := step_ok s env0 (SI 0 [] [] [] 3 [] [] [] cl []) ip port d (SObs code [] nhs nss npend None) in
+    ok && (if code =? 2 then true else run_steps cl s' r)
+  end.
+
+(* datagrams derived from a base message: truncation, one byte xor-ed *)
+Definition tk (b : bytes) (n : N) : bytes := take n b.
+Fixpoint xr_nat (b : bytes) (i : nat) (m : N) : bytes :=
+  match b, i with
+  | [], _ => []
+  | x :: r, O => N.lxor x m :: r
+  | x :: r, S i' => x :: xr_nat r i' m
+  end.
+Definition xr (b : bytes) (i m : N) : bytes := xr_nat b (N.to_nat i) m.
+Definition rp (v n : N) : bytes := repeat v (N.to_nat n).
+
+(* (hidden, maxpending, GetCertList, steps) *)
+Definition hs_seq_ok (c : bool * N * option (list hcert) * list sstep) : bool :=
+  let '(hidden, maxp, cl, steps) := c in
+  run_steps cl {| sv_hidden := hidden; sv_ck := 7; sv_pol := 11; sv_maxpending := maxp; sv_serving := true;
+                  sv_hs := []; sv_ss := []; sv_pending := [] |} steps.
+Definition hs_seq_ok_1 := hs_seq_ok. Definition hs_seq_ok_2 := hs_seq_ok. Definition hs_seq_ok_3 := hs_seq_ok.
+Definition hs_seq_ok_4 := hs_seq_ok. Definition hs_seq_ok_5 := hs_seq_ok. Definition hs_seq_ok_6 := hs_seq_ok.
+Definition hs_seq_ok_7 := hs_seq_ok.
